@@ -426,7 +426,7 @@ SELFREF = {"&x {a: *x}", "&a {i: *a}", "selfref-dict"}
 QUICK_MALFORMED_VALUES = ["1", "", "._", "{", "!!timestamp x", cp("Leaf"), "<missing>", '{"class_path": 1}']
 QUICK_EXIT_VALUES = QUICK_VALUES + V_TAGS[:12] + ['[{"x": 1, "zz": 2}]', '{"x": 1, "zz": 2}', '{"k": {"x": "a"}}', '{"class_path": "calendar.Calendar", "init_args": {"zz": 1}}',
                                                 '{"class_path": "%s", "init_args": {"child": {"class_path": 1}}}' % cp("Sub"), '{"x": 1, "inner": {"zz": 1}}']
-THOROUGH_MALFORMED_VALUES = QUICK_VALUES + V_TAGS + V_BROKEN
+THOROUGH_MALFORMED_VALUES = QUICK_VALUES + V_TAGS[:10]
 CLASSY = ("class", "Callable", "Type", "dataclass", "Any", "group", "inner", "Union", "cfg", "Dict", "List")
 
 
@@ -557,7 +557,7 @@ def do_argv(c):
                 continue
             rv = c.files.sub(v)
             c.args(f"--<{label}>={short(v)}", sub_argv(c.shape, name, f"--{leaf(name)}={rv}"), trig="=" + short(v))
-            if c.thorough or (v in QUICK_VALUES and not c.eoe):
+            if (c.thorough and (v in V_TAGS or v in V_PATHS) or v in QUICK_VALUES) and not (c.eoe and not c.thorough):
                 c.args(f"--<{label}> {short(v)}", sub_argv(c.shape, name, f"--{leaf(name)}", rv), trig=" " + short(v))
     if c.first:
         for seq in SEQUENCES:
@@ -581,7 +581,7 @@ def do_argv_malformed(c):
                     continue
                 rv = c.files.sub(v)
                 c.args(f"{cn}={short(v)}", sub_argv(c.shape, name, f"{opt}={rv}"), trig=f"{variant}={short(v)}")
-                if c.thorough and v in QUICK_VALUES or v in ("1", ""):
+                if v in ("1", ""):
                     c.args(f"{cn} {short(v)}", sub_argv(c.shape, name, opt, rv), trig=f"{variant} {short(v)}")
     if c.first and (c.thorough or c.shape not in ("jsonnet", "omegaconf")):
         for g in GLOBAL_NAMES:
@@ -643,7 +643,7 @@ def do_text(c):
             if not c.thorough and v in V_PATHS:
                 continue
             rv = files.sub(v)
-            ways(nest(name, rv), f"<{label}>: {short(v)}", c.thorough or (v in QUICK_VALUES[:6] and not eoe and c.rep(name) and c.shape in ("flat", "nested", "subclass")), selfref=v in SELFREF, trig=": " + short(v))
+            ways(nest(name, rv), f"<{label}>: {short(v)}", c.thorough and (v in QUICK_VALUES or v in V_TAGS) or (v in QUICK_VALUES[:6] and not eoe and c.rep(name) and c.shape in ("flat", "nested", "subclass")), selfref=v in SELFREF, trig=": " + short(v))
             if "." in name and (c.thorough or v in QUICK_VALUES) and v not in SELFREF:
                 ways(f"{name}: {rv}", f"dotted <{label}>: {short(v)}", False, trig="dotted: " + short(v))
             # the per-argument environment variable
@@ -742,7 +742,7 @@ def do_random(c):
 def main():
     h = Harness("b03_error_channel", rule=(
         "7 parser shapes x both exit_on_error modes x {known option x up to ~330 values in 2 argv forms; 30 malformed spellings of the options + 34 global tokens x 8 "
-        "values (100 in thorough); ~190 hand-written multi-option sequences; ~140 config documents + (key: value) documents through parse_string, parse_path, "
+        "values (30 in thorough); ~190 hand-written multi-option sequences; ~140 config documents + (key: value) documents through parse_string, parse_path, "
         "--cfg=<file>, default_config_files, APP_CFG; per-argument environment variables; 26 kinds of config path; parse_object with 66 Python values at every key, "
         "26 malformed keys}; quick tier: the full loader-level value lists on 3 representative options per shape, class values on class-like options, a sub-list "
         "elsewhere and in exit mode; non-trivial = distinct (shape, mode, method, canonical input) - every one is a call of a public parse method"))
